@@ -1335,6 +1335,22 @@ asn1constraint_compute_constraint_range(
 		return range;
 	}
 
+	/*
+	 * A reversed range, (10..1), would trip the assertions down the road.
+	 * (A multi-character FROM("abc") string fills range->elements instead
+	 * and has its edges recomputed by _range_canonicalize().)
+	 */
+	if(range->el_count == 0
+	&& _edge_compare(&range->left, &range->right) > 0) {
+		FATAL("Lower bound is greater than the upper bound "
+			"in %s at line %d",
+			asn1p_constraint_type2str(requested_ct_type),
+			ct->_lineno);
+		_range_free(range);
+		errno = EPERM;
+		return NULL;
+	}
+
 	if(minmax) {
 		asn1cnst_range_t *clone;
 
